@@ -56,6 +56,10 @@ CHECKS = {
             "DESIGN.md §3 C14",
             "All 4^5 (quick) / 4^7 (thorough) polling schedules with clock steps {0,1,2,5} ticks of 250 ms, for every combination of start time {none, past, now, +3 ticks} x carousel {none, delay 0/2 ticks, interval 0/3 ticks} x target {none, WithinDuration 0 / 4 ticks, WithinTime past / +6 ticks, as-fast-as-possible} x size {empty, 1, 3 symbols} x a higher-priority object present or not, plus trigger_transfer_at(none | +2 ticks) at every poll index on a fixed sub-grid of schedules; oracle on every timed packet: never before the start time (configured or last accepted trigger), carousel turn never before end+delay / start+interval unless re-triggered, paced packet i never before start + i*target/n and sent by the first poll at or after its due time; no panic; after advancing the clock far enough every transfer completes.",
             "Trusted: the virtual clock (time is an argument of every Sender call); carousel clause literal for max_transfer_count = 1 only (DESIGN §5)."),
+    "C15": ("model_checking", "explicit-state BFS over the real Sender/allocator + complete walks of the 16-bit TOI space + loom exhaustive interleavings of the real toiallocator.rs", "statex",
+            "DESIGN.md §3 C15",
+            "Sequential: all histories over {allocate, drop handle j, add object (implicit TOI), add object with handle j, publish+drain} to depth 6 (quick) / 8 (thorough) for every TOI width x initial values {0, 1, max-1, max, max+1, 2^112+5, u128::MAX} against a reference set of live TOIs, with the TOI decoded from the object's packets and the FDT entry compared with the value add_object returned; 14 complete laps of the 16-bit space with values held (wrap-around, skip of reserved values). Concurrent: loom explores every interleaving (preemption bound 3 in quick, unbounded in thorough) of three bodies on the real ToiAllocator compiled with loom's Mutex/Arc: live handles pairwise distinct, non-zero, in range; no deadlock; Send/Sync of Toi and Sender asserted at compile time.",
+            "Trusted: loom's model of Mutex/Arc; the random default initial value is run 64 times and labelled sampling (it shares the code path of the explicit large values)."),
 }
 
 NOT_YET = {}
@@ -83,7 +87,7 @@ def main():
           for p in ALL if p not in CHECKS]
     m = {
         "version": 1,
-        "setup_cmd": "cd /verif/mc && CARGO_NET_OFFLINE=true cargo build --release --offline",
+        "setup_cmd": "cd /verif/mc && CARGO_NET_OFFLINE=true cargo build --release --offline -p fv -p loomtoi",
         "hooks": {
             "guard": "cargo feature `verif` (and `verif-loom`, only meaningful in the loom harness crate that #[path]-includes toiallocator.rs)",
             "enable": "the harness crates depend on flute by path with features=[\"verif\"]; loomtoi enables its own feature verif-loom",
